@@ -472,6 +472,86 @@ impl Drop for SFut {
     }
 }
 
+/// Scripted leaves whose type has NO drop glue (`mem::needs_drop::<PFut>() == false`) while their outputs do:
+/// bookkeeping that keys "is there anything to drop" on the child type instead of the output type leaks here.
+pub struct PFut {
+    pub id: Cid,
+    _pin: PhantomPinned,
+}
+impl PFut {
+    pub fn new(id: Cid) -> PFut {
+        w(|w| {
+            w.ch[id].created = true;
+            w.ch[id].plain = true;
+            w.st.children_created += 1;
+        });
+        PFut { id, _pin: PhantomPinned }
+    }
+}
+impl Future for PFut {
+    type Output = R;
+    fn poll(self: Pin<&mut Self>, cx: &mut Context<'_>) -> Poll<R> {
+        let id = self.id;
+        match leaf_poll(id, cx) {
+            None => Poll::Pending,
+            Some(Res::Ok(_)) => {
+                let v = Val::new(id);
+                leaf_finish(id, Res::Ok(v.id));
+                Poll::Ready(Ok(v))
+            }
+            Some(Res::Err(_)) => {
+                let v = Val::new(id);
+                leaf_finish(id, Res::Err(v.id));
+                Poll::Ready(Err(v))
+            }
+            _ => {
+                leaf_finish(id, Res::Pend);
+                Poll::Pending
+            }
+        }
+    }
+}
+pub struct PStr {
+    pub id: Cid,
+    _pin: PhantomPinned,
+}
+impl PStr {
+    pub fn new(id: Cid) -> PStr {
+        w(|w| {
+            w.ch[id].created = true;
+            w.ch[id].plain = true;
+            w.st.children_created += 1;
+        });
+        PStr { id, _pin: PhantomPinned }
+    }
+}
+impl Stream for PStr {
+    type Item = Val;
+    fn poll_next(self: Pin<&mut Self>, cx: &mut Context<'_>) -> Poll<Option<Val>> {
+        let id = self.id;
+        match leaf_poll(id, cx) {
+            None => Poll::Pending,
+            Some(Res::Item(_)) => {
+                let v = Val::new(id);
+                leaf_finish(id, Res::Item(v.id));
+                Poll::Ready(Some(v))
+            }
+            Some(Res::End) => {
+                leaf_finish(id, Res::End);
+                Poll::Ready(None)
+            }
+            _ => {
+                leaf_finish(id, Res::Pend);
+                Poll::Pending
+            }
+        }
+    }
+    fn size_hint(&self) -> (usize, Option<usize>) {
+        leaf_size_hint(self.id)
+    }
+}
+const _: () = assert!(!std::mem::needs_drop::<PFut>() && !std::mem::needs_drop::<PStr>());
+
 pub struct SStr {
     pub id: Cid,
     _pin: PhantomPinned,
